@@ -36,7 +36,7 @@ Proof. vm_compute. reflexivity. Qed.
 (* ---- SCRIPT / STYLE: content written as it is ------------------------------------------------------------ *)
 Theorem script_style_content_is_raw : forall c top ins raw op name attrs ao s,
   in_names (map low name) raw4 = true -> ser_attrs c name attrs = Some ao ->
-  s <> [] -> forallb (fun ch => (ch <=? maxc c) && negb (ch =? 13)) s = true ->
+  s <> [] -> wf16 s = true -> forallb (fun ch => (ch <=? maxc c) && negb (ch =? 13)) s = true ->
   ser_node c top ins raw op (HEl name attrs [HText s]) =
   Some (pte op ++ [60] ++ acc_name c name ++ ao ++ [62] ++ s ++ [60; 47] ++ acc_name c name ++ [62], false).
 Proof. exact raw_content_verbatim. Qed.
@@ -46,6 +46,31 @@ Print Assumptions script_style_content_is_raw.
 Theorem script_style_content_is_raw_refuted :
   serialize_html (mkcfg 127 true true [] [] []) [HEl [115;99;114;105;112;116] [] [HText [233]]] =
   Some ([60;115;99;114;105;112;116;62] ++ [38;35;50;51;51;59] ++ [60;47;115;99;114;105;112;116;62]).
+Proof. vm_compute. reflexivity. Qed.
+
+(* ---- processing instructions -------------------------------------------------------------------------------- *)
+(* the repaired variant: data the encoding can carry goes out unit for unit (no reader decodes references in a PI) *)
+Theorem pi_data_is_raw : forall c d, forallb (fun ch => ch <=? maxc c) d = true -> pi_data false c d = Some d.
+Proof. exact pi_data_raw. Qed.
+Print Assumptions pi_data_is_raw.
+
+(* ... and that is the variant of this tree (GenHtml.pi_data_is_escaped = false): "<?target data>" *)
+Theorem pi_data_is_raw_this_tree : forall c top ins raw op t d,
+  forallb (fun ch => ch <=? maxc c) d = true ->
+  ser_node c top ins raw op (HPI t d) =
+  Some (pte op ++ [60; 63] ++ acc_name c t ++
+        (match d with [] => [] | d0 :: _ => (if is_xml_ws d0 then [] else [32]) ++ d end) ++ [62] ++ (if top then newline else []), false).
+Proof. exact pi_raw_this_tree. Qed.
+Print Assumptions pi_data_is_raw_this_tree.
+
+Example pi_data_is_raw_instance :
+  serialize_html (mkcfg 65535 true true [] [] []) [HEl [112] [] [HPI [116] [97; 38; 98; 60; 99]]] =
+  Some [60;112;62; 60;63;116;32;97;38;98;60;99;62; 60;47;112;62].
+Proof. vm_compute. reflexivity. Qed.
+
+(* the variant found first (K-C08h-2, repaired in /repo): the data went through writeCharacters *)
+Theorem pi_data_before_fix_witness :
+  pi_data true (mkcfg 65535 true true [] [] []) [97; 38; 98; 60; 99] = Some [97; 38;97;109;112;59; 98; 38;108;116;59; 99].
 Proof. vm_compute. reflexivity. Qed.
 
 (* ---- entity references ------------------------------------------------------------------------------------ *)
